@@ -114,7 +114,15 @@ def gen_lzma_streams(rng, count, big_every=0, end_styles=('marker', 'sized', 'si
         big = big_every and (k % big_every == big_every - 1)
         dict_field = rng.choice([0, 1, 4095, 4096, 4097, 5000, 8192]) if big else rng.choice(DICT_FIELDS)
         window = max(dict_field, 4096)
-        if big:
+        if big and rng.chance(1, 2):
+            # land exactly on a multiple of the window and continue with a literal (then anything): the wrap-point cases
+            laps = rng.range(1, 2)
+            pbld = random_program(rng, 4000, window, lit_bias=1, until=window * laps - 600)
+            exact_size_syms(pbld, window * laps - pbld.n)
+            if rng.chance(2, 3):                     # otherwise the output ends exactly on the window boundary
+                pbld.lit(rng.below(256))
+                for _ in range(rng.range(0, 40)): pbld.random_sym(rng, rng.choice([1, 3]))
+        elif big:
             pbld = random_program(rng, 4000, window, lit_bias=1, until=window * rng.range(1, 3) + rng.range(1, 600))
         else:
             pbld = random_program(rng, rng.range(0, max_syms), window, lit_bias=rng.choice([1, 3, 8]))
@@ -144,6 +152,25 @@ def lzma_oracle_exact(c):
 
 def light(meta):
     return {k: v for k, v in meta.items() if k not in ('bytes', 'out')}
+
+# a program that visits (nearly) every probability cell of the decoder
+def sweep_program(rng, window):
+    pbld = ProgBuilder(window)
+    for _ in range(300): pbld.lit(rng.below(256))
+    dists = list(range(1, 301)) + [rng.range(301, 4000) for _ in range(40)]
+    dists = [d_ for d_ in dists if window is None or d_ <= window] or [1]
+    for _rep in range(3):
+        rng.shuffle(dists)
+        for d_ in dists:
+            if d_ > pbld.maxd(): continue
+            pbld.match(d_, rng.choice([2, 3, 9, 10, 17, 18, 100, 273]) if rng.chance(1, 2) else rng.range(2, 40))
+            r = rng.below(6)
+            if r == 0: pbld.lit(rng.below(256))
+            elif r == 1 and pbld.reps[0] <= pbld.maxd(): pbld.shortrep()
+            elif r == 2:
+                cands = [i for i in range(4) if pbld.reps[i] <= pbld.maxd()]
+                if cands: pbld.rep(rng.choice(cands), pick_len(rng))
+    return pbld
 
 # ------------------------------------------------------------------ C01
 @prop('C01', 'symbol programs (all symbol kinds, lc/lp/pb, dictionary fields incl. <4096 and outputs larger than the window) encoded by the Coq reference encoder, decoded through lzma_decompress_with_options and the raw LzmaDecoder (dictionaries 1-8); non-trivial = program contains at least one match/rep or wraps the window; distinct by hash of the case line')
@@ -180,6 +207,11 @@ def run_C01(ck):
         sized = rng.chance(1, 2)
         reqs.append('ref_payload lc=%d lp=%d pb=%d window=%d delta=0 prog=%s' % (lc, lp, pb, d, pbld.text(not sized)))
         metas.append({'props': (lc, lp, pb), 'dict': d, 'n': pbld.n, 'sized': sized, 'kinds': dict(pbld.kinds)})
+    for k in range(5 if ck.tier == 'quick' else 30):
+        lc, lp, pb = [(3, 0, 2), (0, 0, 4), (8, 4, 0), (0, 4, 3), (4, 2, 1)][k] if k < 5 else rand_props(rng)
+        pbld = sweep_program(rng, 4096)
+        reqs.append('ref_payload lc=%d lp=%d pb=%d window=4096 delta=0 prog=%s' % (lc, lp, pb, pbld.text(True)))
+        metas.append({'props': (lc, lp, pb), 'dict': 4096, 'n': pbld.n, 'sized': False, 'kinds': dict(pbld.kinds), 'sweep': True})
     for enc, meta, rq in zip(ref_encode(reqs), metas, reqs):
         if enc is None: raise InfraError('reference encoder rejected: ' + rq[:200])
         lc, lp, pb = meta['props']
@@ -565,6 +597,9 @@ def run_C17(ck):
                 add('control_03_7f_at_end', b[:o] + bytes([rng.range(3, 0x7F)]) + b[o + 1:], wrap)
                 continue
             add('control_03_7f', b[:o] + bytes([rng.range(3, 0x7F)]) + b[o + 1:], wrap)
+            if ch['kind'] == 'lzma' and (ch['control'] & 0x7F) >= 3:
+                # the same chunk with only bit 7 of its control byte cleared: everything else stays consistent
+                add('control_bit7_cleared', b[:o] + bytes([ch['control'] & 0x7F]) + b[o + 1:], wrap)
             add('truncated_in_chunk', b[:o + rng.range(1, ch['hdr_len'] + ch['payload_len'] - 1)], wrap)
             if ch['kind'] == 'raw':
                 add('raw_chunk_short', b[:o + 3 + ch['payload_len'] - 1], wrap)
@@ -578,6 +613,18 @@ def run_C17(ck):
                     newpk = pk - 1
                     hdr = bytearray(b[o:o + ch['hdr_len']]); hdr[3:5] = struct.pack('>H', newpk - 1)
                     add('packed_too_small', b[:o] + bytes(hdr) + b[o + ch['hdr_len']:o + ch['hdr_len'] + newpk] + b[o + ch['hdr_len'] + pk:], wrap)
+    # fully consistent big chunks whose control byte loses bit 7: 0xFF -> 0x7F (2 MiB band), 0xE1.. -> 0x61.. etc.
+    breqs = []
+    for size in ([rng.range(2031617, 2097152), rng.range(65537, 131072)] if ck.tier == 'quick' else
+                 [rng.range(2031617, 2097152), 2097152, 2031617] + [rng.range(65537 + 65536 * k_, 65536 * (k_ + 2)) for k_ in range(0, 30, 3)]):
+        pb = ProgBuilder(None)
+        exact_size_syms(pb, size)
+        lc, lp, pbits = rand_props(rng, lzma2=True)
+        breqs.append('ref_lzma2 chunks=Z3:%d,%d,%d:0:%s' % (lc, lp, pbits, pb.text()))
+    for enc in ref_encode(breqs):
+        if enc is None: raise InfraError('reference serialiser rejected a big C17 chunk')
+        b = enc[0]
+        add('control_bit7_cleared_big', bytes([b[0] & 0x7F]) + b[1:], False)
     # payload/size disagreements built from programs: overshooting match, marker inside the chunk
     reqs, metas = [], []
     for k in range(60 if ck.tier == 'quick' else 400):
@@ -1159,6 +1206,9 @@ def run_C11(ck):
         if s['style'] == 'sized':
             cases.append({'line': 'lzma_dec opt=rfh in=%s rd=%s' % (hx(b + trail), RD()), 'meta': {'kind': 'lzma_sized', 'trail': len(trail), 'n': s['n']}, 'expect_pos': len(b), 'expect_out': s['out']})
             cases.append({'line': 'lzma_dec opt=up:%d in=%s rd=%s' % (s['n'], hx(b[:5] + b[13:] + trail), RD()), 'meta': {'kind': 'lzma_sized_up', 'trail': len(trail), 'n': s['n']}, 'expect_pos': len(b) - 8, 'expect_out': s['out']})
+            # the caller supplies the size and the 8 header bytes are skipped whatever they hold (all ones = "unknown", zero, garbage)
+            fld = rng.choice([b'\xff' * 8, b'\xff' * 8, bytes(8), rng.bytes(8), struct.pack('<Q', s['n'] + 1)])
+            cases.append({'line': 'lzma_dec opt=rhp:%d in=%s rd=%s' % (s['n'], hx(b[:5] + fld + b[13:] + trail), RD()), 'meta': {'kind': 'lzma_sized_rhp', 'trail': len(trail), 'n': s['n'], 'field': hx(fld)}, 'expect_pos': len(b), 'expect_out': s['out']})
         elif s['style'] == 'marker':
             cases.append({'line': 'lzma_dec opt=rfh in=%s rd=%s' % (hx(b + trail), RD()), 'meta': {'kind': 'lzma_marker', 'trail': len(trail)}, 'must_err': len(trail) > 0, 'expect_out': s['out']})
         ck.count('lzma_' + s['style'])
@@ -1216,6 +1266,15 @@ def run_C12(ck):
                           'ref_lzma lc=3 lp=0 pb=2 dict=4096 size=0 delta=0 prog=E'])
     if any(e is None for e in empties): raise InfraError('reference encoder rejected an empty program')
     for e in empties: bases.append(('lzma_dec opt=rfh in=%s' % hx(e[0]), 'lzma_dec', b''))
+    # outputs that end exactly on a window boundary (the circular buffer has just been flushed / is exactly full)
+    wreqs = []
+    for laps in (1, 2):
+        pbld = random_program(rng, rng.range(1, 30), 4096, lit_bias=2)
+        exact_size_syms(pbld, 4096 * laps - pbld.n)
+        wreqs.append('ref_lzma lc=3 lp=0 pb=2 dict=4096 size=%s delta=0 prog=%s' % (rng.choice(['none', str(pbld.n)]), pbld.text(True)))
+    for e in ref_encode(wreqs):
+        if e is None: raise InfraError('reference encoder rejected a window-boundary program')
+        bases.append(('lzma_dec opt=rfh in=%s' % hx(e[0]), 'lzma_dec', e[1]))
     bases.append(('lzma2_dec in=00', 'lzma2_dec', b''))
     bases.append(('xz_dec in=%s' % hx(xz_file([], 1)), 'xz_dec', b''))
     bases.append(('xz_dec in=%s' % hx(xz_file([XzBlock(b'\x00', b'')], 4)), 'xz_dec', b''))
@@ -1335,6 +1394,9 @@ def run_C13(ck):
             inputs.append(('xz_dec in=%s' % hx(m), 'mutant'))
         inputs.append(('xz_dec in=%s' % hx(f['bytes'][:rng.range(0, len(f['bytes']))]), 'truncated'))
         inputs.append(('xz_dec in=%s' % hx(corrupt(rng, f['bytes'])), 'corrupt'))
+        # bytes after the footer: zero "stream padding" in and out of 4-byte alignment, a second stream, garbage
+        inputs.append(('xz_dec in=%s' % hx(f['bytes'] + bytes(rng.choice([1, 2, 3, 4, 4, 8, 8, 12, 16]))), 'stream_padding'))
+        inputs.append(('xz_dec in=%s' % hx(f['bytes'] + rng.choice([rng.bytes(rng.range(1, 9)), bytes(4) + f['bytes'], f['bytes']])), 'after_footer'))
         # non-zero bytes at various places of the header padding, CRC recomputed
         if f['blocks'] and f['blocks'][0].header_pad:
             for _ in range(3):
@@ -1408,6 +1470,27 @@ def run_C14(ck):
         fresh = {'line': 'raw_lzma lc=%d lp=%d pb=%d dict=%d size=%s ops=d:%s' % (lc, lp, pb, d, fin_size, hx(probe)), 'meta': {'api': 'lzma', 'fresh': True}}
         reused['fresh'] = fresh
         cases += [reused, fresh]; ck.count('lzma_histories')
+    # ---- cell sweep: history and probe both visit (nearly) every probability cell - all distances 1..300 (every pos_slot,
+    #      every reverse-tree cell of the distance coder incl. the last one, the align bits), lengths of all three length
+    #      classes, reps, short reps and literals in all automaton states - so that ANY cell left stale by reset shows
+    for g in range(6 if quick else 40):
+        lc, lp, pb = rand_props(rng)
+        d = rng.choice([4096, 65536, 300])
+        pa, pb_ = sweep_program(rng, d), sweep_program(rng, d)
+        encs = ref_encode(['ref_payload lc=%d lp=%d pb=%d window=%d prog=%s' % (lc, lp, pb, d, q.text(True)) for q in (pa, pb_)])
+        if any(e is None for e in encs): raise InfraError('ref encoder rejected a C14 sweep program')
+        reused = {'line': 'raw_lzma lc=%d lp=%d pb=%d dict=%d size=none ops=d:%s;r;d:%s' % (lc, lp, pb, d, hx(encs[0][0]), hx(encs[1][0])), 'meta': {'api': 'lzma', 'history': ['sweep'], 'final_reset': 'r'}}
+        fresh = {'line': 'raw_lzma lc=%d lp=%d pb=%d dict=%d size=none ops=d:%s' % (lc, lp, pb, d, hx(encs[1][0])), 'meta': {'api': 'lzma', 'fresh': True}}
+        reused['fresh'] = fresh
+        cases += [reused, fresh]; ck.count('lzma_cell_sweeps')
+        # the same two programs as LZMA2 streams on one reused Lzma2Decoder
+        lc2, lp2, pb2 = rand_props(rng, lzma2=True)
+        e2 = ref_encode(['ref_lzma2 chunks=Z3:%d,%d,%d:0:%s' % (lc2, lp2, pb2, q.text()) for q in (sweep_program(rng, None), sweep_program(rng, None))])
+        if all(e is not None for e in e2):
+            reused = {'line': 'raw_lzma2 ops=d:%s;r;d:%s' % (hx(e2[0][0]), hx(e2[1][0])), 'meta': {'api': 'lzma2', 'history': ['sweep']}}
+            fresh = {'line': 'raw_lzma2 ops=d:%s' % hx(e2[1][0]), 'meta': {'api': 'lzma2', 'fresh': True}}
+            reused['fresh'] = fresh
+            cases += [reused, fresh]; ck.count('lzma2_cell_sweeps')
     # ---- LZMA2
     pool = gen_lzma2_streams(rng, 30 if quick else 200)
     # streams whose first compressed chunk carries no property byte (leniency of the decoder: uses the state's properties)
